@@ -1,9 +1,8 @@
 (* Props/C03.v -- applying a Clifford map is a unitary conjugation (phase-exact homomorphism).  Property theorems only.
-   PARTIAL with respect to "a single unitary U exists": proved here is that transform by a valid map is a centre-fixing automorphism of the
-   Pauli group (identity to identity, generators to the listed images, products to products with the exact phase, commutation, Hermiticity
-   and squares preserved, phases pulled out).  That every such automorphism is implemented by a unitary is the textbook theorem and is NOT
-   formalised; explicit unitaries are exhibited for rotations (C02) and named gates (C11). *)
-From PC Require Import Gen.Kernels Model.Base Model.Pauli Model.CMap Model.Spec Proofs.PauliFacts Proofs.Transform Proofs.Rotate Proofs.MaskFacts.
+   Proved: transform by a valid map is a centre-fixing automorphism of the Pauli group (identity to identity, generators to the listed images, products to products
+   with the exact phase, commutation, Hermiticity and squares preserved, phases pulled out), AND "a single unitary U exists": every valid map is a product of pi/4
+   rotations (Proofs/GeneratedFacts.v) each of which is conjugation by 1 + iG in the ket semantics (Proofs/UnitaryFacts.v), see C03_implemented_by_a_unitary below. *)
+From PC Require Import Gen.Kernels Model.Base Model.Pauli Model.CMap Model.Spec Proofs.PauliFacts Proofs.Transform Proofs.Rotate Proofs.MaskFacts Model.Ket Model.Poly Model.PolySem Proofs.GeneratedFacts Proofs.UnitaryFacts Proofs.CliffordUnitary.
 
 Theorem C03_identity_to_identity : forall n m, valid_map n m -> transform1 m (pid n) = pid n.
 Proof. exact transform_pid. Qed.
@@ -55,6 +54,19 @@ Theorem C03_rotation_map_valid : forall n gen, wf n gen -> hermP gen -> valid_ma
 Proof. exact rotation_map_valid. Qed.
 Print Assumptions C03_rotation_map_valid.
 (* torch uses the same formulas *)
+(* A SINGLE UNITARY EXISTS.  Every valid map is a product of pi/4 Pauli rotations (constructively: diagonalise the images of X_0,Z_0, recurse, fix signs), and
+   each rotation is conjugation by V_G = 1 + iG (V_G^dag V_G = 2; sqrt 2 is irrational, so the unnormalised operator is used) in the ket semantics.  Hence there are
+   polynomials V, Vd = V^dag and K with  Vd V = 2^K  and  Vd P V = 2^K * transform(P)  for every Pauli operator P, phase included: U = V / 2^(K/2) is the unitary. *)
+Theorem C03_implemented_by_a_unitary : forall n m, valid_map n m ->
+  exists V Vd K,
+    (forall k k', length k = n -> amp (pmulp Vd V) k k' = cmul (two_pow K) (amp (ident_poly n) k k')) /\
+    (forall a k k', wf n a -> length k = n -> amp (pmulp Vd (pmulp [(c1, a)] V)) k k' = cmul (two_pow K) (amp [(c1, transform1 m a)] k k')).
+Proof. exact clifford_map_unitary. Qed.
+Print Assumptions C03_implemented_by_a_unitary.
+Theorem C03_product_of_rotations : forall n m, valid_map n m ->
+  exists gens : list pauli, Forall (fun g => wf n g /\ hermP g) gens /\ forall a, wf n a -> transform1 m a = GeneratedFacts.rotate_seq1 gens a.
+Proof. exact map_is_rotation_product. Qed.
+Print Assumptions C03_product_of_rotations.
 Theorem C03_torch_formulas : forall a b c,
   torch_transform_phase a b c = np_transform_phase a b c /\ torch_combine_phase a b c = np_combine_phase a b c /\
   torch_combine_bit a b = np_combine_bit a b.
